@@ -72,6 +72,19 @@ def affine(ctx, R):
     )
 
 
+def _through_temp(fnode, e):
+    """`t = E; return t`: the expression behind a returned local that has exactly one assignment."""
+    for _ in range(3):
+        if not isinstance(e, ast.Name):
+            return e
+        asg = [n for n in ast.walk(fnode) if isinstance(n, ast.Assign) and len(n.targets) == 1 and isinstance(n.targets[0], ast.Name) and n.targets[0].id == e.id]
+        stores = [n for n in ast.walk(fnode) if isinstance(n, ast.Name) and n.id == e.id and isinstance(n.ctx, ast.Store)]
+        if len(asg) != 1 or len(stores) != 1:
+            return e
+        e = asg[0].value
+    return e
+
+
 def closure_parts(ev, st, s, attr):
     """(uninterpolator, interpolator) closures composed by the map stored in `attr`: found by their role in
     the composition lambda x: I(U(x)), whatever the local names."""
@@ -81,7 +94,7 @@ def closure_parts(ev, st, s, attr):
         call = ev.P.method(out.cls, "__call__")
         if call is not None and len(call.params) == 2:
             rets = [n for n in call.node.body if isinstance(n, ast.Return)]
-            body = rets[0].value if len(rets) == 1 else None
+            body = _through_temp(call.node, rets[0].value if len(rets) == 1 else None)
             selfn = call.params[0]
 
             def fld(e):
@@ -99,6 +112,7 @@ def closure_parts(ev, st, s, attr):
     if body is None:
         rets = [n for n in out.func.node.body if isinstance(n, ast.Return)]
         body = rets[0].value if len(rets) == 1 else None
+        body = _through_temp(out.func.node, body)
     if isinstance(body, ast.Call) and isinstance(body.func, ast.Name) and len(body.args) == 1 and isinstance(body.args[0], ast.Call) and isinstance(body.args[0].func, ast.Name):
         i = out.env.lookup(body.func.id)
         u = out.env.lookup(body.args[0].func.id)
